@@ -27,18 +27,19 @@ import (
 // vconn records every packet written to it. It never blocks and takes no locks of its own: under
 // engine sched exactly one thread runs at a time, and the bfs/enum harnesses are single-threaded.
 type vconn struct {
-	name     string
-	protocol proto.Protocol
-	st       *state.Registry
-	ctx      context.Context
-	cancel   context.CancelFunc
-	packets  []proto.Packet
-	payloads [][]byte
-	closes   int
-	onWrite  func(p proto.Packet)
-	connType phase.ConnectionType
-	handler  netmc.SessionHandler
-	wr       netmc.Writer
+	name      string
+	protocol  proto.Protocol
+	st        *state.Registry
+	ctx       context.Context
+	cancel    context.CancelFunc
+	packets   []proto.Packet
+	payloads  [][]byte
+	closes    int
+	onWrite   func(p proto.Packet)
+	onPayload func(b []byte) // C18: raw payload writes are observed too
+	connType  phase.ConnectionType
+	handler   netmc.SessionHandler
+	wr        netmc.Writer
 }
 
 func newVConn(name string, protocol proto.Protocol, st *state.Registry) *vconn {
@@ -86,6 +87,9 @@ func (c *vconn) Write(b []byte) error {
 		return netmc.ErrClosedConn
 	}
 	c.payloads = append(c.payloads, append([]byte(nil), b...))
+	if c.onPayload != nil {
+		c.onPayload(b)
+	}
 	return nil
 }
 func (c *vconn) BufferPacket(p proto.Packet) error { return c.WritePacket(p) }
@@ -178,7 +182,11 @@ func (m *detEvent) HasSubscriber(events ...event.Event) bool {
 	}
 	return true
 }
-func (m *detEvent) UnsubscribeAll(events ...event.Event) int { n := len(m.subs); m.subs = nil; return n }
+func (m *detEvent) UnsubscribeAll(events ...event.Event) int {
+	n := len(m.subs)
+	m.subs = nil
+	return n
+}
 
 var _ event.Manager = (*detEvent)(nil)
 
